@@ -694,6 +694,61 @@ func stress(args []string) {
 		}(g)
 	}
 	wg.Wait()
+	// (c'') concurrent callers on ONE path with different source texts (an editor buffer and the
+	// file on disk, the old and the new revision of a file): what a caller gets must depend on
+	// the source it handed in, not on who else is loading something in the same directory.
+	// Each text's reference is its own result obtained alone, before the concurrent phase.
+	for _, rel := range rels[:min(len(rels), evid.Pick(2, 6))] {
+		file := filepath.Join(dir, rel)
+		disk, err := os.ReadFile(file)
+		if err != nil {
+			continue
+		}
+		texts := []string{string(disk),
+			string(disk) + "\nfunc ExtraInBufferOnly(a int) int {\n\treturn a*7 + 1\n}\n",
+			string(disk) + "\nfunc OtherBuffer(a int, b int) int {\n\tfor i := 0; i < a&3; i++ {\n\t\tb += i\n\t}\n\treturn b\n}\n"}
+		var alone [][]triple
+		okAll := true
+		for _, t := range texts {
+			rs, err := diff.FingerprintSource(file, t, ir.DefaultLiteralPolicy)
+			if err != nil {
+				okAll = false
+				break
+			}
+			alone = append(alone, triples(rs))
+		}
+		if !okAll {
+			res.Inconcl(1)
+			continue
+		}
+		var wg2 sync.WaitGroup
+		start := make(chan struct{})
+		for g := 0; g < 12; g++ {
+			wg2.Add(1)
+			go func(g int) {
+				defer wg2.Done()
+				<-start
+				for it := 0; it < 3; it++ {
+					k := (g + it) % len(texts)
+					rs, err := diff.FingerprintSource(file, texts[k], ir.DefaultLiteralPolicy)
+					mu.Lock()
+					res.Eval(1)
+					res.Count("concurrent_same_path_observations", 1)
+					if err != nil || !sameTriples(alone[k], triples(rs)) {
+						what := "error: " + fmt.Sprint(err)
+						if err == nil {
+							what = firstDiff(alone[k], triples(rs))
+						}
+						res.Violate("nondeterministic/concurrent-same-path", fmt.Sprintf("%s: text #%d fingerprinted while 11 other callers load other texts of the same path differs from the same text fingerprinted alone: %s", rel, k, what), map[string]any{"file": rel, "text": k})
+					}
+					mu.Unlock()
+				}
+			}(g)
+		}
+		close(start)
+		wg2.Wait()
+		res.Distinct(rel + "|concurrent-same-path")
+	}
 	res.Count("concurrent_observations", int(conc.Load()))
 	res.Set("goroutines", G)
 }
